@@ -24,11 +24,25 @@ def size(x):  # shadows the built-in size() for the program it is bound to
 TABLE = {"hf_add1": hf_add1, "hf_boom": hf_boom, "size": size}
 
 
+def variant(name, n):
+    """Another implementation registered under the *same* CEL name (each thread / program of the
+    host application may bind its own): adds 1000*n instead of 1."""
+
+    def impl(x):
+        from celpy import celtypes
+
+        return celtypes.IntType(int(x) + 1000 * n)
+
+    impl.__name__ = name
+    return impl
+
+
 def materialise(spec):
     """spec: None | {"style": "dict"|"list", "names": [...]}"""
     if spec is None:
         return None
-    fns = [TABLE[n] for n in spec["names"]]
+    v = spec.get("variant")
+    fns = [variant(n, v) if (v and n == "hf_add1") else TABLE[n] for n in spec["names"]]
     if spec["style"] == "list":
         return fns
     return {n: f for n, f in zip(spec["names"], fns)}
